@@ -422,6 +422,23 @@ def gen6(spec, lv):
     return {"text": "\n".join(lines) + "\n", "pre": [z3.Distinct(modes)] if lv.symbolic and len(modes) > 1 else []}
 
 
+def _via_file(bb, text):
+    """the same text loaded from a file (written byte for byte, line endings untouched)"""
+    import tempfile
+    d = tempfile.mkdtemp(prefix="bbverif_c18_")
+    try:
+        p = os.path.join(d, "script.xbb")
+        with open(p, "w", newline="") as fh:
+            fh.write(text)
+        return bb.load(p)
+    finally:
+        import shutil
+        shutil.rmtree(d, ignore_errors=True)
+
+
+FILE_VARIANTS = ("cr", "comments_cr", "comments_crlf", "comments", "blank_and_comment_lines_cr", "tabs", "no_final_newline")
+
+
 def o6_run(arg):
     tier, spec, seed = arg
     from ..pysym import engine, stubs, skel
@@ -449,6 +466,13 @@ def o6_run(arg):
                 raise
             except Exception as e:  # noqa
                 res[name] = ("exc", "%s: %s" % (type(e).__name__, str(e)[:150]))
+            if name in FILE_VARIANTS and all(ord(c_) < 128 for c_ in v):
+                try:
+                    res[name + " (from a file)"] = ("ok", _snap.program(_via_file(bb, v)))
+                except engine.Abort:
+                    raise
+                except Exception as e:  # noqa
+                    res[name + " (from a file)"] = ("exc", "%s: %s" % (type(e).__name__, str(e)[:150]))
         return base, res
 
     try:
@@ -500,12 +524,15 @@ def o6_concrete(spec, vname, vals, seed, tier, w=None):
     text = gen6(spec, lv)["text"]
     rnd = random.Random(hash((seed, repr(spec))) & 0xFFFFFF)
     variants = layout_variants(text, w["lang"], rnd, 1 if tier == "quick" else 4)
-    v = variants[vname]
+    from_file = vname.endswith(" (from a file)")
+    v = variants[vname[:-len(" (from a file)")] if from_file else vname]
 
     def load(t):
         aux._VAR.clear()
         aux._PARAMS.clear()
         try:
+            if from_file and t is v:
+                return ("ok", _snap.program(_via_file(blackbird, t)))
             return ("ok", _snap.program(blackbird.loads(t)))
         except Exception as e:  # noqa
             return ("exc", "%s: %s" % (type(e).__name__, str(e)[:200]))
